@@ -29,6 +29,6 @@ P2Sets == { [Base("P2") EXCEPT !.profile = Prof(P2Name), !.clientId = IntV(ci), 
 ASSUME \A o \in P1Sets \cup P2Sets : Valid(o)
 ASSUME JsonSerialize(IOEnv.OUT, [P1 |-> P1Sets, P2 |-> P2Sets])
 VARIABLE dummy
-GInit == dummy = 0 /\ Init
-GNext == UNCHANGED <<dummy, obj, ret>>
+GInit == dummy = 0
+GNext == UNCHANGED dummy
 ====
